@@ -1,5 +1,5 @@
 (** C16 — removing a document erases it completely and only it. *)
-From ID Require Import Model.StoreOps Proofs.StoreFacts.
+From ID Require Import Model.StoreOps Model.Replica Proofs.StoreFacts Proofs.FsPutFacts Proofs.HashFacts Proofs.ReachFacts Proofs.ReachRebuild.
 
 (** For all 32-byte ids (ids ending in 0xFF and the all-0xFF id included: their upper bound is
     computed by the fixed-width successor, [Unb] when it overflows), removal deletes from every
@@ -39,7 +39,35 @@ Theorem C16_refused_while_open : forall ks EH MF CAP s ns,
   mem ns (s_open s) = true -> store_step ks EH MF CAP s (SRemove ns) = (s, RFail).
 Proof. intros. cbn. now rewrite H. Qed.
 
+(** re-creating a removed document yields an empty document with fresh settings and exactly the
+    imported capability *)
+Theorem C16_recreate_empty : forall T ns c, wf_tables T ->
+  let '(T', out) := import_namespace (remove_replica T ns) ns c in
+  out = ImpInserted /\ get_cap T' ns = Some c /\
+  fs_all ns T' = [] /\ heads_of T' ns = [] /\ peers_of T' ns = [] /\ get_policy T' ns = default_policy /\
+  t_records T' = t_records (remove_replica T ns).
+Proof. exact recreate_empty. Qed.
+
+(** at all times the content hashes reported are exactly the hashes of the entries held in any
+    document (one per held entry) *)
+Theorem C16_content_hashes_exact : forall T, Forall wf_row (t_records T) ->
+  forall h, In h (content_hashes T) <-> exists ns e, In e (fs_all ns T) /\ e_hash e = h.
+Proof. exact content_hashes_exact. Qed.
+Theorem C16_content_hashes_step : forall ks EH MF CAP s,
+  store_step ks EH MF CAP s SContentHashes = (s, RHashes (content_hashes (s_tables s))).
+Proof. exact content_hashes_step. Qed.
+
+(** the hypotheses above hold in every reachable store: any history of entries offered (local
+    inserts, deletion markers, remote entries, in any order), removals and (re-)imports *)
+Theorem C16_reachable_stores_are_well_formed : forall EH l, Forall wf_dop l ->
+  wf_tables (drun EH l) /\ Forall wf_row (t_records (drun EH l)).
+Proof. exact reachable_well_formed. Qed.
+
 Print Assumptions C16_remove_is_filter.
 Print Assumptions C16_remove_erases.
 Print Assumptions C16_remove_only.
 Print Assumptions C16_refused_while_open.
+Print Assumptions C16_recreate_empty.
+Print Assumptions C16_content_hashes_exact.
+Print Assumptions C16_content_hashes_step.
+Print Assumptions C16_reachable_stores_are_well_formed.
